@@ -127,7 +127,7 @@ def run(chk):
             proved, f2 = V.prove(chk, "C15", [])
             fails += f2
         pkg = CS.load_pkg(mmv)
-        base = CP.sys_cases(mmv, pkg) + CP.site_stream(mmv, pkg, shapes=((1, 3),)) + CP.rand_cases(mmv, pkg, rng, 1, 1)
+        base = CP.sys_cases(mmv, pkg) + CP.site_stream(mmv, pkg, shapes=((0, 0), (1, 0), (2, 0), (1, 3))) + CP.rand_cases(mmv, pkg, rng, 1, 1)
         if chk.tier == "quick":
             base = [c for i, c in enumerate(base) if c["kind"] != "valid-sys" or i % 3 != 0]
         pairs = []
